@@ -36,7 +36,7 @@ func c12build() *c12world {
 		w.names = append(w.names, n)
 	}
 	add("R1", `(a)|b`, regexp2.OptionMaxCachedReplacerDataEntries(2)) // bool-only eligible; replacement cache of 2
-	add("R2", `(?<o>x)+(?<-o>y)+`)                                      // balancing
+	add("R2", `(?<o>x)+(?<-o>y)+`)                                    // balancing
 	add("R3", `(?:(a)|(b))*c`, regexp2.OptionMaxBacktrackingStackSize(80))
 	add("R4", `(?<5>a)(b)?`) // sparse numbers
 	add("R5", `(a)|b`)       // second instance: shares only the global pools with R1
@@ -77,7 +77,10 @@ func c12calls() []c12call {
 		})
 	}
 	all := func(re, in, label string) {
-		add(fmt.Sprintf("%s.FindAllStringIndex(%s)", re, label), func(w *c12world) string { x, err := w.re[re].FindAllStringIndex(in, -1); return fmt.Sprint(len(x), first3(x), err) })
+		add(fmt.Sprintf("%s.FindAllStringIndex(%s)", re, label), func(w *c12world) string {
+			x, err := w.re[re].FindAllStringIndex(in, -1)
+			return fmt.Sprint(len(x), first3(x), err)
+		})
 	}
 	repl := func(re, in, r, label string) {
 		add(fmt.Sprintf("%s.Replace(%s,%q)", re, label, r), func(w *c12world) string {
@@ -86,7 +89,10 @@ func c12calls() []c12call {
 		})
 	}
 	split := func(re, in, label string) {
-		add(fmt.Sprintf("%s.Split(%s)", re, label), func(w *c12world) string { x, err := w.re[re].Split(in, -1); return fmt.Sprintf("%d:%q %v", len(x), head(strings.Join(x, "|")), err) })
+		add(fmt.Sprintf("%s.Split(%s)", re, label), func(w *c12world) string {
+			x, err := w.re[re].Split(in, -1)
+			return fmt.Sprintf("%d:%q %v", len(x), head(strings.Join(x, "|")), err)
+		})
 	}
 	// R1 / R5: bool-only eligible pattern with captures
 	ms("R1", "xab", `"xab"`)
